@@ -239,7 +239,16 @@ func tail(s string, n int) string {
 }
 
 // JobFromItem turns a genlab item (corpus file or inline text with options) into a spec job.
+// NotDrivable lists corpus documents whose generated packages cannot be driven by a generic harness, with the
+// reason; JobFromItem refuses them (the generator-side monitors C02, C10, C11, C14, C17 still use them).
+var NotDrivable = map[string]string{
+	"positive/custom_formats.json": "the document uses x-ogen custom formats whose codecs the user of the package must supply (ogen's own test registers them by hand); without them values of those formats encode to nothing",
+}
+
 func JobFromItem(key string, it genlab.Item) (SpecJob, error) {
+	if why, bad := NotDrivable[it.ID]; bad {
+		return SpecJob{}, fmt.Errorf("%s is not driven: %s", it.ID, why)
+	}
 	data, opts, err := it.Options()
 	if err != nil {
 		return SpecJob{}, err
